@@ -238,7 +238,9 @@ pub fn run(ctx: &Ctx, report: &mut Report) {
     report.rule = "exhaustive: every 16-bit value of TYPE/CLASS/QTYPE/QCLASS rendered and parsed back; \
         every ASCII-case variant (all 2^n) of every mnemonic; TYPEn/CLASSn with every case variant of the \
         prefix for every n; all 256 opcode/RCODE octets; all 65536 extended RCODEs. Every case is \
-        non-trivial; distinct = number of distinct (kind, text/value) cases."
+        non-trivial; distinct = number of distinct (kind, text/value) cases. Sub-check codes-after-rejected-text (sampled): histories \
+        of 2-15 steps on one fresh thread mixing text that is no code's text (out-of-range numbers, bare prefixes, trailing junk, \
+        non-ASCII) with round trips, mnemonics and generic forms, each judged as in the exhaustive part."
         .to_string();
     report.exhaustive = true;
     report.assumptions.push("IANA mnemonic table transcribed by hand in c17.rs".into());
@@ -276,8 +278,115 @@ pub fn run(ctx: &Ctx, report: &mut Report) {
         }
         first
     });
+    // the same conversions inside histories that also parse text that is no code's text
+    crate::fw::run_prop(ctx, report, crate::fw::PropSpec { name: "codes-after-rejected-text", cases: ctx.tier.pick(40_000, 1_000_000), max_shrink_iters: 2000 }, history_strategy, oracle_history);
 }
 
-pub fn replay(_check: &str, case: &serde_json::Value) -> Verdict {
+pub fn replay(check: &str, case: &serde_json::Value) -> Verdict {
+    if check == "codes-after-rejected-text" {
+        return crate::fw::replay_case::<History, _>(case, oracle_history);
+    }
     crate::fw::replay_case::<Case, _>(case, |c, _| oracle(c))
+}
+
+////////////////////////////////////////////////////////////////////////
+// histories: the conversions hold whatever was parsed before          //
+////////////////////////////////////////////////////////////////////////
+
+/// One step of a history run on a single thread.
+#[derive(Clone, Debug, Serialize, Deserialize, PartialEq, Eq, Hash)]
+pub enum Step {
+    /// parse text that is not the text of any code (the result is not judged; it must not panic)
+    Junk(Kind, String),
+    /// render and parse back
+    RoundTrip(Kind, u16),
+    /// a mnemonic (index into the kind's table) with a case mask
+    Mnemonic(Kind, u16, u16),
+    /// TYPEn / CLASSn with a case mask for the prefix
+    Generic(Kind, u16, u16),
+}
+
+#[derive(Clone, Debug, Serialize, Deserialize, PartialEq, Eq, Hash)]
+pub struct History {
+    pub steps: Vec<Step>,
+}
+
+fn with_mask(s: &str, mask: u16) -> String {
+    s.chars().enumerate().map(|(i, c)| if mask & (1 << (i % 16)) != 0 { if c.is_ascii_uppercase() { c.to_ascii_lowercase() } else { c.to_ascii_uppercase() } } else { c }).collect()
+}
+
+pub fn oracle_history(h: &History, st: &mut Stats) -> Verdict {
+    // a fresh thread per history: state kept per thread (caches, scratch buffers) starts empty
+    let steps = h.steps.clone();
+    let handle = std::thread::spawn(move || -> (Verdict, u64, bool) {
+        let mut evals = 0u64;
+        let mut junk_before = false;
+        let mut judged_after_junk = false;
+        for (i, step) in steps.iter().enumerate() {
+            evals += 1;
+            let case = match step {
+                Step::Junk(kind, text) => {
+                    if let Err(p) = catch(|| parse(*kind, text)) {
+                        return (Err(Fail::new(panic_signature(&p), format!("step #{i}: parsing {text:?} as {kind:?} panicked: {p}"))), evals, judged_after_junk);
+                    }
+                    junk_before = true;
+                    continue;
+                }
+                Step::RoundTrip(kind, v) => Case::RoundTrip { kind: *kind, value: *v },
+                Step::Mnemonic(kind, sel, mask) => {
+                    let table: Vec<(&str, u16)> = match kind {
+                        Kind::Type => TYPE_MNEMONICS.to_vec(),
+                        Kind::Qtype => TYPE_MNEMONICS.iter().chain(QTYPE_ONLY.iter()).cloned().collect(),
+                        Kind::Class => CLASS_MNEMONICS.to_vec(),
+                        Kind::Qclass => CLASS_MNEMONICS.iter().chain(QCLASS_ONLY.iter()).cloned().collect(),
+                    };
+                    let (m, v) = table[crate::gen::pick(*sel, table.len())];
+                    Case::Text { kind: *kind, text: with_mask(m, *mask), expect: v }
+                }
+                Step::Generic(kind, v, mask) => {
+                    let prefix = if matches!(kind, Kind::Type | Kind::Qtype) { "TYPE" } else { "CLASS" };
+                    Case::Text { kind: *kind, text: format!("{}{v}", with_mask(prefix, *mask)), expect: *v }
+                }
+            };
+            if junk_before {
+                judged_after_junk = true;
+            }
+            if let Err(f) = oracle(&case) {
+                let before: Vec<String> = steps[..i].iter().map(|s| format!("{s:?}")).collect();
+                return (Err(Fail::new(format!("after-history-{}", f.signature), format!("step #{i} after the steps {before:?} on the same thread: {}", f.detail))), evals, judged_after_junk);
+            }
+        }
+        (Ok(()), evals, judged_after_junk)
+    });
+    let (verdict, evals, after) = match handle.join() {
+        Ok(r) => r,
+        Err(_) => (Err(Fail::new("harness-history-thread", "the history thread panicked")), 0, false),
+    };
+    st.evals(evals);
+    verdict?;
+    if after {
+        st.class("conversion-judged-after-rejected-text-on-the-same-thread");
+        st.nontrivial(h, || json!({"steps": h.steps.iter().map(|s| format!("{s:?}")).collect::<Vec<_>>()}));
+    }
+    Ok(())
+}
+
+fn history_strategy() -> impl proptest::strategy::Strategy<Value = History> {
+    use proptest::prelude::*;
+    let kind = || prop_oneof![Just(Kind::Type), Just(Kind::Class), Just(Kind::Qtype), Just(Kind::Qclass)];
+    let junk = prop_oneof![
+        6 => prop_oneof![
+            Just(""), Just("TYPE65536"), Just("CLASS65536"), Just("type99999999999999999999"), Just("TYPE"), Just("CLASS"), Just("bogus"), Just("TYPE-1"), Just("TYPE 1"),
+            Just("TYPE1x"), Just("CLASS1x"), Just("A "), Just(" A"), Just("IN."), Just("Aé"), Just("TYPEé"), Just("typ"), Just("CLAS1"), Just("TYPE+1"), Just("TYPE0x10"), Just("TYPE１"), Just("AXFRR"), Just("**")
+        ].prop_map(|s| s.to_string()),
+        1 => "[ -~]{0,12}",
+        1 => "(TYPE|CLASS|type|class)[0-9]{5,8}",
+    ];
+    let step = prop_oneof![
+        3 => (kind(), junk).prop_map(|(k, t)| Step::Junk(k, t)),
+        2 => (kind(), any::<u16>()).prop_map(|(k, v)| Step::RoundTrip(k, v)),
+        3 => (kind(), any::<u16>(), prop_oneof![Just(0u16), any::<u16>()]).prop_map(|(k, s, m)| Step::Mnemonic(k, s, m)),
+        2 => (kind(), any::<u16>(), prop_oneof![Just(0u16), any::<u16>()]).prop_map(|(k, v, m)| Step::Generic(k, v, m)),
+    ];
+    prop::collection::vec(step, 2..16).prop_map(|steps| History { steps })
 }
